@@ -121,6 +121,7 @@ def declare(U):
     m.requires("not self.stop_event.isset", "feeder-rely:stop-is-requested-only-after-the-feeder-is-done(owed@join-of-the-consumer)")
     m.modifies("self.pool._sending_work", "self.pool._data_cnt", "self.pool._work_queue.chan.sent", "self.pool._work_queue.chan.chunk",
                "self.pool.coff", "self.done", "self.run_event.isset")
+    m.ensures("self.pool._work_queue.stops == old(self.pool._work_queue.stops)", "the-feeder-puts-no-stop-token")
     m.ghost_at_write("_sending_work", "self.done = not _value")
     lp = m.loop(1).environment_driven()
     CHS = "_seq1"
@@ -128,7 +129,7 @@ def declare(U):
                  " and same(self.stop_event, old(self.stop_event)) and same(self.run_event, old(self.run_event))"
                  " and same(self.data, old(self.data)) and self.chunk_size == old(self.chunk_size)"
                  " and same(%s.X, old(%s.X)) and same(%s.feeder, old(%s.feeder))" % ((p,) * 9))
-    lp.invariant("%s._sending_work and not self.done and not self.stop_event.isset" % p)
+    lp.invariant("%s._sending_work and not self.done and not self.stop_event.isset and %s._work_queue.stops == old(%s._work_queue.stops)" % (p, p, p))
     lp.invariant("%s._data_cnt == _i1 and chan(%s).sent == _i1" % (p, p), "counter=number-of-chunks-sent=next-index")
     lp.invariant("len(%s) == len(g_ys_chunking) and forall(j, 0, len(%s), %s[j][0] == j and %s[j][1] == g_ys_chunking[j])" % (CHS, CHS, CHS, CHS))
     lp.invariant("forall(j, 0, _i1 + 1, %s.coff[j] == g_coff[j], trigger=%s.coff[j])" % (p, p), "ghost-offsets-follow-the-chunking")
